@@ -18,6 +18,7 @@ import (
 	"context"
 	"fmt"
 	"io"
+	"sort"
 	"strings"
 	"time"
 
@@ -53,9 +54,56 @@ func (j *Builder) Day(d time.Time) *Day {
 }
 
 func (j *Builder) Build() *Journal {
-	return &Journal{
-		Days: dict.SortedValues(j.days, CompareDays),
+	days := dict.SortedValues(j.days, CompareDays)
+	for _, d := range days {
+		d.sortBySource()
 	}
+	return &Journal{
+		Days: days,
+	}
+}
+
+// sortBySource orders the directives of a day by their position in the
+// source files (path, then offset). Files are parsed concurrently, so the
+// order in which directives are added is not deterministic; the position in
+// the sources is. Directives without a source keep their relative order.
+func (d *Day) sortBySource() {
+	sort.SliceStable(d.Prices, func(i, j int) bool {
+		return sourceBefore(d.Prices[i].Src != nil, d.Prices[j].Src != nil, func() (syntax.Range, syntax.Range) {
+			return d.Prices[i].Src.Range, d.Prices[j].Src.Range
+		})
+	})
+	sort.SliceStable(d.Openings, func(i, j int) bool {
+		return sourceBefore(d.Openings[i].Src != nil, d.Openings[j].Src != nil, func() (syntax.Range, syntax.Range) {
+			return d.Openings[i].Src.Range, d.Openings[j].Src.Range
+		})
+	})
+	sort.SliceStable(d.Transactions, func(i, j int) bool {
+		return sourceBefore(d.Transactions[i].Src != nil, d.Transactions[j].Src != nil, func() (syntax.Range, syntax.Range) {
+			return d.Transactions[i].Src.Range, d.Transactions[j].Src.Range
+		})
+	})
+	sort.SliceStable(d.Assertions, func(i, j int) bool {
+		return sourceBefore(d.Assertions[i].Src != nil, d.Assertions[j].Src != nil, func() (syntax.Range, syntax.Range) {
+			return d.Assertions[i].Src.Range, d.Assertions[j].Src.Range
+		})
+	})
+	sort.SliceStable(d.Closings, func(i, j int) bool {
+		return sourceBefore(d.Closings[i].Src != nil, d.Closings[j].Src != nil, func() (syntax.Range, syntax.Range) {
+			return d.Closings[i].Src.Range, d.Closings[j].Src.Range
+		})
+	})
+}
+
+func sourceBefore(ok1, ok2 bool, ranges func() (syntax.Range, syntax.Range)) bool {
+	if !ok1 || !ok2 {
+		return false
+	}
+	r1, r2 := ranges()
+	if r1.Path != r2.Path {
+		return r1.Path < r2.Path
+	}
+	return r1.Start < r2.Start
 }
 
 func (j *Builder) Add(d model.Directive) error {
